@@ -57,6 +57,7 @@ class DispatchLab:
         for did, src, name in (("x1", "dendrobine.xyz", "x1.xyz"), ("xk", "pentane_confs.xyz", "xk.xyz"),
                                ("xdat", "pentane_confs.xyz", "xdat.zzz"), ("m1", "dendrobine.mol2", "m1.mol2"),
                                ("mk", "pentane_confs.mol2", "mk.mol2"), ("c1", "parser_demo.cdxml", "c1.cdxml"),
+                               ("c2", "BOX_cores.cdxml", "c2.cdxml"),
                                ("u", "dendrobine.mol", "u.sdf")):
             p = self.dir / name
             shutil.copyfile(R / src, p)
@@ -67,8 +68,10 @@ class DispatchLab:
                       "NXk": self._count_xyz_frames(self.docs["xk"].read_text()),
                       "NMk": self.docs["mk"].read_text().count("@<TRIPOS>MOLECULE"),
                       "NCdx": self._count_cdxml_fragments(self.docs["c1"])}
-        if self.facts["NCdx"] != len(ml.CDXMLFile(self.docs["c1"]).keys()):
-            raise RuntimeError("bundled cdxml document: number of top-level fragments differs from the number of labels")
+        self.facts["NCdx2"] = self._count_cdxml_fragments(self.docs["c2"])
+        for d, k in (("c1", "NCdx"), ("c2", "NCdx2")):
+            if self.facts[k] != len(ml.CDXMLFile(self.docs[d]).keys()):
+                raise RuntimeError("bundled cdxml document: number of top-level fragments differs from the number of labels")
         self.generated(seed, extra_objs)
         self._texts = None
         self._n = 0
@@ -255,12 +258,14 @@ class DispatchLab:
 class DispatchAdapter:
     """replay adapter for the MCDispatch graph.  stream_kind: 'stringio' | 'file' (a file the caller opened)."""
 
-    def __init__(self, lab: DispatchLab, paths, streams=("s",), stream_kind="stringio"):
+    def __init__(self, lab: DispatchLab, paths, streams=("s",), stream_kind="stringio", srcpaths=None):
         self.lab = lab
         lab._n += 1
         self.dir = lab.dir                                  # one directory; every run has its own file names
         tag = f"r{lab._n}_"
         self.paths = {p: self.dir / f"{tag}{p}.{suf}" for p, suf in paths.items()}
+        # source paths whose document is replaced between loads (same path, new content)
+        self.srcp = {sp: self.dir / f"{tag}{sp}.{suf}" for sp, suf in (srcpaths or {}).items()}
         self.kind = stream_kind
         self.spath = {s: self.dir / f"{tag}stream_{s}.txt" for s in streams}
         self.streams = {}
@@ -274,7 +279,7 @@ class DispatchAdapter:
                 s.close()
             except Exception:
                 pass
-        for p in list(self.paths.values()) + list(self.spath.values()):
+        for p in list(self.paths.values()) + list(self.spath.values()) + list(self.srcp.values()):
             try:
                 p.unlink()
             except FileNotFoundError:
@@ -285,7 +290,7 @@ class DispatchAdapter:
             return None
         if fmtarg == "content":
             return {"x1": "xyz", "xk": "xyz", "xdat": "xyz", "xh": "xyz", "m1": "mol2", "mk": "mol2", "mh": "mol2",
-                    "c1": "cdxml", "u": "sdf"}[doc]
+                    "c1": "cdxml", "c2": "cdxml", "u": "sdf"}[doc]
         return REAL_FMT[fmtarg]
 
     def second_key(self, path):
@@ -293,9 +298,17 @@ class DispatchAdapter:
 
     def apply(self, act):
         a, lab = act["act"], self.lab
-        self.changed = a == "dump"
-        if a in ("load", "loadback"):
-            if a == "load":
+        self.changed = a in ("dump", "replace")
+        if a == "replace":
+            shutil.copyfile(lab.docs[act["doc"]], self.srcp[act["sp"]])      # rewrite the file in place
+            return {"out": "ok"}
+        if a in ("load", "loadback", "loadsrc"):
+            if a == "loadsrc":
+                path, src = self.srcp[act["sp"]], act["src"]
+                cur = self.current_doc(act["sp"])
+                fmt = self._fmt(act["fmtarg"], cur)
+                key = self.second_key(path) if act["keyed"] else None
+            elif a == "load":
                 path, fmt, src = lab.docs[act["doc"]], self._fmt(act["fmtarg"], act["doc"]), act["src"]
                 key = self.second_key(path) if act["keyed"] else None
             else:
@@ -336,6 +349,17 @@ class DispatchAdapter:
             return {"out": "ok", "val": lab.tokenize(r) if isinstance(r, str) else [["?", type(r).__name__]]}
         raise AssertionError(f"unknown action {a}")
 
+    def current_doc(self, sp):
+        """Which document the source path holds now (by content)."""
+        p = self.srcp[sp]
+        if not p.exists():
+            return None
+        b = p.read_bytes()
+        for d, dp in self.lab.docs.items():
+            if dp.suffix == p.suffix and dp.read_bytes() == b:
+                return d
+        return "?"
+
     def state(self):
         files = {}
         for p, path in self.paths.items():
@@ -353,7 +377,7 @@ class DispatchAdapter:
                     st.flush()
                     txt = self.spath[s].read_text()
                 streams[s] = {"open": True, "content": self.lab.tokenize(txt)}
-        return {"files": files, "streams": streams}
+        return {"files": files, "streams": streams, "srcs": {sp: self.current_doc(sp) or "none" for sp in self.srcp}}
 
     def observe(self):
         return self.state() if self.changed else None
